@@ -1,5 +1,7 @@
 import RsslVerif.Model.Targets
 import RsslVerif.Model.SimplifyCbuffers
+import RsslVerif.Model.HlslModule
+import RsslVerif.Model.GenHlsl
 import RsslVerif.Gen.CbufferTables
 import RsslVerif.Lemmas.MacroLite
 /-!
@@ -743,5 +745,228 @@ example :
   decide
 
 end Simplify
+
+
+/-! ## 6. DirectX and Vulkan HLSL differ only in annotations - whole modules, function bodies included
+
+`Model.HlslModule.genModule` puts every reader of the target-derived flags / context fields of hlsl/src/ast_generate.rs at
+its place in the generated module (declarations, struct members, parameters and attributes of the pixel entry point of a
+mesh pipeline); the generator of everything else of a function is a parameter that sees `requires_buffer_address` only. -/
+section HlslModule
+open RsslVerif.Model.HlslModule RsslVerif.Gen.CbufferTables
+
+/-- Tie to the source: the readers of the flags / context fields in hlsl/src/ast_generate.rs are exactly these
+    (function, field) pairs - each is a site of `genModule` - and the three per-primitive sites and the `for_spirv` guard
+    have the modelled text.  (`new` / `prepend_modifiers`: the struct-literal initialisers of the two context fields.) -/
+theorem hlsl_target_sites_as_modelled :
+    ((flagUses.filter (fun u => u.1 == "hlsl/src/ast_generate.rs")).map (fun u => (u.2.1, u.2.2.1))) =
+      [("analyse_per_primitive_attributes", "per_primitive_semantics"),
+       ("analyse_per_primitive_attributes", "pixel_entry_for_mesh"),
+       ("build_single_param", "requires_buffer_address"),
+       ("generate_constant_buffer", "requires_vk_binding"),
+       ("generate_function_inner", "pixel_entry_for_mesh"),
+       ("generate_function_param", "per_primitive_semantics"),
+       ("generate_global_variable", "requires_vk_binding"),
+       ("generate_intrinsic_function", "requires_buffer_address"),
+       ("generate_struct", "per_primitive_semantics"),
+       ("new", "per_primitive_semantics"), ("new", "pixel_entry_for_mesh"),
+       ("prepend_modifiers", "per_primitive_semantics"), ("prepend_modifiers", "pixel_entry_for_mesh")] ∧
+    forSpirvOnlyGuardsPerPrimitiveAnalysis = true ∧ perPrimitiveSitesAsModelled = true := by decide
+
+theorem declTextOpt_erase {σ σ' : Type} (f f' : Flags) (spell : ObjKind → String) (h : σ → σ') (g : GlobalDef σ)
+    (hba : f.requiresBufferAddress = f'.requiresBufferAddress ∨ g.addressFree = true) :
+    (declTextOpt f spell g).erase = (declTextOpt f' spell (g.reslot h)).erase := by
+  obtain ⟨name, kind, arr, slot⟩ := g
+  cases kind with
+  | none => cases slot <;> simp [declTextOpt, GlobalDef.reslot, DeclText.erase, declText]
+  | some k =>
+    have hk : (isBufferAddress k && f.requiresBufferAddress) = (isBufferAddress k && f'.requiresBufferAddress) := by
+      rcases hba with e | e
+      · rw [e]
+      · simp only [GlobalDef.addressFree, Bool.not_eq_eq_eq_not, Bool.not_true] at e
+        simp [e]
+    cases slot <;> simp [declTextOpt, GlobalDef.reslot, DeclText.erase, declText, hk]
+
+/-- the hypothesis under which the buffer-address flag can not show: it is the same on both sides, or the module
+    declares no buffer address and its function generator does not look at the flag -/
+def AddressAgnostic {σ φ τ ε : Type} (f f' : Flags) (genFn : Bool → φ → Except ε τ) (m : Module σ φ) : Prop :=
+  f.requiresBufferAddress = f'.requiresBufferAddress ∨
+  ((∀ g, Root.global g ∈ m.roots → g.addressFree = true) ∧
+   (∀ fd, Root.func fd ∈ m.roots → genFn true fd.code = genFn false fd.code))
+
+theorem genRoot_erase {σ σ' φ τ ε : Type} (f f' : Flags) (pp pp' : PerPrim) (spell : ObjKind → String)
+    (genFn : Bool → φ → Except ε τ) (h : σ → σ') (r : Root σ φ)
+    (hg : ∀ g, r = .global g → (f.requiresBufferAddress = f'.requiresBufferAddress ∨ g.addressFree = true))
+    (hf : ∀ fd, r = .func fd → genFn f.requiresBufferAddress fd.code = genFn f'.requiresBufferAddress fd.code) :
+    (genRoot f pp spell genFn r).map RootText.erase = (genRoot f' pp' spell genFn (r.reslot h)).map RootText.erase := by
+  cases r with
+  | struct s => simp [genRoot, Root.reslot, RootText.erase, Except.map, List.map_map, Function.comp_def]
+  | global g =>
+    simp only [genRoot, Root.reslot, Except.map, RootText.erase]
+    rw [declTextOpt_erase f f' spell h g (hg g rfl)]
+  | func fd =>
+    simp only [genRoot, Root.reslot]
+    rw [hf fd rfl]
+    cases genFn f'.requiresBufferAddress fd.code with
+    | error e => rfl
+    | ok code => simp [Except.map, RootText.erase, List.map_map, Function.comp_def]
+
+theorem genRoots_erase {σ σ' φ τ ε : Type} (f f' : Flags) (pp pp' : PerPrim) (spell : ObjKind → String)
+    (genFn : Bool → φ → Except ε τ) (h : σ → σ') (rs : List (Root σ φ))
+    (hg : ∀ g, Root.global g ∈ rs → (f.requiresBufferAddress = f'.requiresBufferAddress ∨ g.addressFree = true))
+    (hf : ∀ fd, Root.func fd ∈ rs → genFn f.requiresBufferAddress fd.code = genFn f'.requiresBufferAddress fd.code) :
+    (genRoots f pp spell genFn rs).map (List.map RootText.erase) =
+    (genRoots f' pp' spell genFn (rs.map (Root.reslot h))).map (List.map RootText.erase) := by
+  induction rs with
+  | nil => rfl
+  | cons r rs ih =>
+    have h1 := genRoot_erase f f' pp pp' spell genFn h r
+      (fun g e => hg g (by simp [e])) (fun fd e => hf fd (by simp [e]))
+    have h2 := ih (fun g hm => hg g (by simp [hm])) (fun fd hm => hf fd (by simp [hm]))
+    simp only [genRoots, List.map_cons]
+    cases hr : genRoot f pp spell genFn r with
+    | error e =>
+      rw [hr] at h1
+      cases hr' : genRoot f' pp' spell genFn (r.reslot h) with
+      | error e' => rw [hr'] at h1; simpa [Except.map] using h1
+      | ok t' => rw [hr'] at h1; cases h1
+    | ok t =>
+      rw [hr] at h1
+      cases hr' : genRoot f' pp' spell genFn (r.reslot h) with
+      | error e' => rw [hr'] at h1; cases h1
+      | ok t' =>
+        rw [hr'] at h1
+        simp only [Except.map, Except.ok.injEq] at h1
+        simp only
+        cases hrs : genRoots f pp spell genFn rs with
+        | error e =>
+          rw [hrs] at h2
+          cases hrs' : genRoots f' pp' spell genFn (rs.map (Root.reslot h)) with
+          | error e' => rw [hrs'] at h2; simpa [Except.map] using h2
+          | ok ts' => rw [hrs'] at h2; cases h2
+        | ok ts =>
+          rw [hrs] at h2
+          cases hrs' : genRoots f' pp' spell genFn (rs.map (Root.reslot h)) with
+          | error e' => rw [hrs'] at h2; cases h2
+          | ok ts' =>
+            rw [hrs'] at h2
+            simp only [Except.map, Except.ok.injEq] at h2 ⊢
+            simp [h1, h2]
+
+/-- **Two HLSL exports of one module differ only in annotations**: for any module (structs, extern globals, cbuffer
+    blocks, functions with bodies of any size), any two settings of `for_spirv`, any two binding parameter sets, any api
+    slots - with the annotations erased (`: register`, `[[vk::binding]]`, `[[vk::ext_decorate]]`, the
+    `[[vk::ext_extension]]` pair) both exports fail alike or are equal root definition by root definition, *provided the
+    buffer-address flag can not show* (`AddressAgnostic`). -/
+theorem hlsl_exports_differ_only_in_annotations {σ σ' φ τ ε : Type} (fs fs' : Bool) (p p' : Params)
+    (spell : ObjKind → String) (genFn : Bool → φ → Except ε τ) (h : σ → σ') (m : Module σ φ)
+    (ha : AddressAgnostic (flagsOf p) (flagsOf p') genFn m) :
+    (genModule fs p spell genFn m).map (List.map RootText.erase) =
+    (genModule fs' p' spell genFn (m.reslot h)).map (List.map RootText.erase) := by
+  unfold genModule
+  simp only [Module.reslot]
+  apply genRoots_erase
+  · intro g hg
+    rcases ha with e | ⟨e, _⟩
+    · exact Or.inl e
+    · exact Or.inr (e g hg)
+  · intro fd hfd
+    rcases ha with e | ⟨_, e⟩
+    · rw [e]
+    · have := e fd hfd
+      cases (flagsOf p).requiresBufferAddress <;> cases (flagsOf p').requiresBufferAddress <;> simp_all
+
+/-- **DirectX vs Vulkan**: `export_to_hlsl(ir, false)` on the module bound for DirectX and `export_to_hlsl(ir, true)` on
+    the module bound for Vulkan (no buffer addresses requested) differ only in annotations - unconditionally. -/
+theorem dx_vk_differ_only_in_annotations {σ σ' φ τ ε : Type} (spell : ObjKind → String)
+    (genFn : Bool → φ → Except ε τ) (h : σ → σ') (m : Module σ φ) :
+    (genModule false (paramsFor .HlslForDirectX false) spell genFn m).map (List.map RootText.erase) =
+    (genModule true (paramsFor .HlslForVulkan false) spell genFn (m.reslot h)).map (List.map RootText.erase) :=
+  hlsl_exports_differ_only_in_annotations false true _ _ spell genFn h m (Or.inl (by decide))
+
+/-- **Vulkan with vs without buffer addresses**: beyond annotations the two differ only where a buffer address is
+    declared or its methods are called - if the module declares none and no body depends on the flag, they are equal. -/
+theorem vk_vkba_differ_only_where_addresses_are {σ σ' φ τ ε : Type} (spell : ObjKind → String)
+    (genFn : Bool → φ → Except ε τ) (h : σ → σ') (m : Module σ φ)
+    (hg : ∀ g, Root.global g ∈ m.roots → g.addressFree = true)
+    (hf : ∀ fd, Root.func fd ∈ m.roots → genFn true fd.code = genFn false fd.code) :
+    (genModule true (paramsFor .HlslForVulkan false) spell genFn m).map (List.map RootText.erase) =
+    (genModule true (paramsFor .HlslForVulkan true) spell genFn (m.reslot h)).map (List.map RootText.erase) :=
+  hlsl_exports_differ_only_in_annotations true true _ _ spell genFn h m (Or.inr ⟨hg, hf⟩)
+
+/-- **Function level, citing C01's exporter model**: with `Model.GenHlsl.genFunc` (expressions, statements, literals,
+    calls, intrinsics of the scalar subset - the generator C01 proves meaning-preserving) as the function generator, the
+    DirectX and Vulkan exports of any module are equal up to annotations; `genFunc` takes the name context only, so the
+    generated functions are literally the same terms on both sides. -/
+theorem dx_vk_differ_only_in_annotations_c01 {σ σ' : Type} (spell : ObjKind → String) (cx : RsslVerif.Model.GenHlsl.Ctx)
+    (h : σ → σ') (m : Module σ RsslVerif.Model.Ir.Func) :
+    (genModule false (paramsFor .HlslForDirectX false) spell (fun _ => RsslVerif.Model.GenHlsl.genFunc cx) m).map
+      (List.map RootText.erase) =
+    (genModule true (paramsFor .HlslForVulkan false) spell (fun _ => RsslVerif.Model.GenHlsl.genFunc cx) (m.reslot h)).map
+      (List.map RootText.erase) :=
+  dx_vk_differ_only_in_annotations spell _ h m
+
+theorem isPerPrim_noPerPrim (f : Field) : isPerPrim noPerPrim f = false := by
+  unfold isPerPrim noPerPrim
+  cases f.userSemantic <;> rfl
+
+theorem counts_dx_aux {σ φ τ ε : Type} (spell : ObjKind → String) (genFn : Bool → φ → Except ε τ)
+    (rs : List (Root σ φ)) (ts : List (RootText σ τ))
+    (h : genRoots (flagsOf (paramsFor .HlslForDirectX false)) noPerPrim spell genFn rs = .ok ts) :
+    (counts ts).2.1 = 0 ∧ (counts ts).2.2.1 = 0 ∧ (counts ts).2.2.2 = 0 := by
+  induction rs generalizing ts with
+  | nil => simp only [genRoots] at h; cases h; simp [counts]
+  | cons r rs ih =>
+    simp only [genRoots] at h
+    cases hr : genRoot (flagsOf (paramsFor .HlslForDirectX false)) noPerPrim spell genFn r with
+    | error e => simp [hr] at h
+    | ok t =>
+      cases hrs : genRoots (flagsOf (paramsFor .HlslForDirectX false)) noPerPrim spell genFn rs with
+      | error e => simp [hr, hrs] at h
+      | ok ts' =>
+        simp only [hr, hrs] at h
+        cases h
+        obtain ⟨i1, i2, i3⟩ := ih ts' hrs
+        cases r with
+        | struct s =>
+          simp only [genRoot] at hr; cases hr
+          simp [counts, i1, i2, i3, isPerPrim_noPerPrim]
+        | global g =>
+          simp only [genRoot] at hr; cases hr
+          obtain ⟨name, kind, arr, slot⟩ := g
+          cases slot <;> simp [counts, i1, i2, i3, declTextOpt, declText, flagsOf, paramsFor, paramsDefault]
+        | func fd =>
+          simp only [genRoot] at hr
+          cases hc : genFn (flagsOf (paramsFor .HlslForDirectX false)).requiresBufferAddress fd.code with
+          | error e => simp [hc] at hr
+          | ok code =>
+            simp only [hc] at hr; cases hr
+            simp [counts, i1, i2, i3, isPerPrim_noPerPrim, noPerPrim]
+
+/-- a DirectX export carries no `[[vk::..]]` annotation of any kind -/
+theorem dx_has_no_vk_annotations {σ φ τ ε : Type} (spell : ObjKind → String) (genFn : Bool → φ → Except ε τ)
+    (m : Module σ φ) (ts : List (RootText σ τ))
+    (h : genModule false (paramsFor .HlslForDirectX false) spell genFn m = .ok ts) :
+    (counts ts).2.1 = 0 ∧ (counts ts).2.2.1 = 0 ∧ (counts ts).2.2.2 = 0 := by
+  unfold genModule at h
+  simp only [analyse, Bool.not_false, if_true] at h
+  exact counts_dx_aux spell genFn m.roots ts h
+
+/-- non-vacuity: a mesh pipeline whose mesh entry declares `MATERIAL` per-primitive, a struct with that member, a pixel
+    entry reading it, a bound texture: the Vulkan export has one binding attribute, two decorations and the extension
+    pair; the DirectX export has one register annotation and nothing else; erased they are equal -/
+example :
+    let m : Module Nat Unit :=
+      { roots := [.struct ⟨"Prim", [⟨"material", some "MATERIAL"⟩, ⟨"pos", none⟩]⟩,
+                  .global ⟨"g_t", some .Texture2D, .single, some 0⟩,
+                  .func ⟨1, [], ["MATERIAL"], ()⟩,
+                  .func ⟨2, [⟨"i_pos", none⟩, ⟨"i_material", some "MATERIAL"⟩], [], ()⟩],
+        pipeline := some [(.Mesh, 1), (.Pixel, 2)] }
+    let gen : Bool → Unit → Except Unit Unit := fun _ _ => .ok ()
+    (genModule true (paramsFor .HlslForVulkan false) (fun _ => "T") gen m).map counts = .ok (0, 1, 2, 1) ∧
+    (genModule false (paramsFor .HlslForDirectX false) (fun _ => "T") gen m).map counts = .ok (1, 0, 0, 0) := by
+  decide
+
+end HlslModule
 
 end RsslVerif.Thm.C18
